@@ -162,20 +162,13 @@ def siteDefs (os : Env) (cd : CallDesc) : Site → Defs
   | .callVars => callLayer cd.callVars cd.wildcards
   | .taskVars => cd.taskVars
 
-def ctxOf (tc : TaskCtx) : Ctx := ⟨tc.rootDir, tc.dirTpl, 3⟩
+def ctxOf (tc : TaskCtx) (home : Str) : Ctx := ⟨tc.rootDir, tc.dirTpl, home⟩
 
 /-- `compiledTask`: after all layers -/
 def postLayer (fp : Option (Name × Str)) (e : Env) : Env :=
   match fp with
   | some (n, v) => set e n v
   | none => e
-
-/-- `execext.ExpandLiteral` on the forms that occur: `~` and `~/…` -/
-def expandTilde (home s : Str) : Str :=
-  match s with
-  | [126] => home
-  | 126 :: 47 :: r => home ++ 47 :: r
-  | _ => s
 
 structure Compiled where
   vars : Env
@@ -184,16 +177,9 @@ structure Compiled where
 
 /-- **`Executor.CompiledTask`** (variables and directory) -/
 def compile (w : World) (home : Str) (cd : CallDesc) (c : Cache) : Compiled :=
-  let st := getVariables w (ctxOf cd.tc) (baseEnv w cd.tc) (layersOf (siteDefs w.osEnv cd)) c
+  let st := getVariables w (ctxOf cd.tc home) (baseEnv w cd.tc) (layersOf (siteDefs w.osEnv cd)) c
   { vars := postLayer cd.fp st.env
-    dir := joinDir cd.tc.rootDir (expandTilde home (render st.env cd.tc.dirTpl))
+    dir := taskDirOver (ctxOf cd.tc home) st.env
     cache := st.cache }
-
-/-- the directory in which the `sh:` variables of the task-dir sites (included-Taskfile vars, task
-vars) are evaluated: the task's `dir:` rendered over what the first three layers resolved -/
-def shDir (w : World) (cd : CallDesc) (c : Cache) : Str :=
-  let ls := layersOf (siteDefs w.osEnv cd)
-  let s3 := runLayers w (ctxOf cd.tc) (ls.take 3) 0 { td := none, env := baseEnv w cd.tc, cache := c }
-  joinDir cd.tc.rootDir (render s3.env cd.tc.dirTpl)
 
 end TaskModel.Vars
